@@ -17,11 +17,18 @@ CONSTANTS MaxLen, ExportLen,
           BinP, BinF,             \* unit strings / operators of binary operations (subsets of BinProbes / BinOps)
           CopyP, PickleP,         \* unit strings of copied units / of pickled quantities
           ConvHows,               \* conversion methods (subset of Hows)
-          HandleH                 \* ways of obtaining a second registry object on the same table (subset of HandleHows)
+          HandleH,                \* ways of obtaining a second registry object on the same table (subset of HandleHows)
+          PickleH,                \* what is pickled to restore a registry object: subset of {"registry", "unit"}
+          InBaseQ, InBaseS        \* data units of in_base (subset of Keys) / "none" | "slim" | "full": see InBaseForms
 
 \* a re-binding with bypass_validation=True is only generated as the LAST call of a history: on today's code it
 \* re-binds the caller's Unit object (known finding), after which every later call is a consequence of that
 NoBypassYet == \A i \in DOMAIN hist : ~(hist[i].op = "rebind" /\ hist[i].bypass)
+\* <<data unit, built-in system, unit string of a following .to() or "">> (cfg files cannot hold tuples: selected by name)
+InBaseForms == CASE InBaseS = "none" -> {}
+                 [] InBaseS = "slim" -> {<<"km", "cgs", "">>, <<"m", "mks", "km">>}
+                 [] OTHER -> {<<q, "cgs", "">> : q \in InBaseQ} \cup {<<q, "mks", "">> : q \in InBaseQ}
+                             \cup {<<"m", "mks", "km">>, <<"km", "cgs", "kfoo">>, <<"foo", "mks", "km">>}
 Edits(r) ==
   \/ \E s \in Syms, sc \in (IF regs[r].d = 0 THEN DScales ELSE AddScales), px \in (IF regs[r].d = 0 THEN DPfx ELSE BOOLEAN) : Add(r, s, sc, px)
   \/ \E k \in Keys, sc \in ModScales : Modify(r, k, sc)
@@ -29,12 +36,14 @@ Edits(r) ==
 Reads(r) ==
   \/ \E k \in ReadKeys : Contains(r, k)
   \/ \E p \in ReadProbes : Construct(r, p)
+  \/ \E st \in InBaseForms : InBase(r, st[1], st[2], st[3])
 Creations ==
   \/ \E defs \in BOOLEAN : NewPlain(defs, "mks")
   \/ NewPlain(TRUE, "cgs")
   \/ \E src \in RegIds, defs \in BOOLEAN : NewLutAlias(src, defs)
   \/ \E src \in RegIds : NewLutCopy(src) \/ FromJson(src) \/ DeepCopyReg(src)
   \/ \E src \in RegIds, how \in HandleH : ShallowHandle(src, how)
+  \/ \E src \in RegIds, how \in PickleH : PickleReg(src, how, "km")
   \/ \E src \in RegIds, p \in PickleP : Unpickle(src, p)
   \/ \E src \in RegIds, p \in CopyP, deep \in BOOLEAN : UnitCopy(src, p, deep)
 NsOps(r) == MkUnitSystem(r, "kfoo") \/ MkUnitSystem(r, "km") \/ MkUnitSystem(r, "foo") \/ AddSymbols(r) \/ AddConstants(r)
@@ -58,6 +67,7 @@ LastKind == IF hist = <<>> THEN <<>> ELSE LET e == hist[Len(hist)] IN
             THEN <<e.op, e.r = 0, e.r2 = 0, e.r = e.r2, IF e.op = "binop" THEN e.fn ELSE IF e.op = "convert" THEN e.how ELSE "",
                    IF e.op = "binop" THEN e.warm ELSE FALSE>>
             ELSE IF regs[e.r].d = 0 /\ e.op \in {"modify", "remove"} THEN <<e.op, e.r, e.sym>>   \* every refusal of the default table
+            ELSE IF e.op = "inbase" THEN <<e.op, e.r, e.sys, e.str2>>
             ELSE <<e.op, e.r>>
 \* NoBypassYet is a guard on the hidden history, so it must be visible too (otherwise a dead-end representative
 \* could shadow a live state with the same dictionaries)
